@@ -2,4 +2,4 @@ From Coq Require Extraction.
 From Coq Require Import ExtrOcamlBasic.
 From RM Require Import C13.Driver.
 From RM Require C12.Model.
-Extraction "c13_model.ml" run_limits_json run_certs run_unloaded run_linux run_cfi_rules run_adaptive a_ask a_done a_nat_of_z a_z_of_nat C12.Model.stat_loaded C12.Model.stat_corrupt.
+Extraction "c13_model.ml" run_limits_json run_certs run_unloaded run_bitflip_sources run_linux run_cfi_rules run_adaptive a_ask a_done a_nat_of_z a_z_of_nat C12.Model.stat_loaded C12.Model.stat_corrupt.
